@@ -66,6 +66,14 @@ def gen_turn(rng, cfg, k, w_in=(0.62, 0.14, 0.14, 0.10), w_out=(0.62, 0.14, 0.14
             t["act_fault"] = rng.random() < 0.25
             if ver == "2.x":
                 t["user"] = ACT_TEXT
+    if ver == "2.x" and not cfg["dialog"]:
+        # the answering flow waits with `user said something` / a literal / a regular expression: send what it matches
+        form = cfg.get("usaid", "something")
+        if form == "plain":
+            t["user"] = P.PLAIN_TEXT
+        elif form == "regex":
+            t["user"] = t["user"] + " " + rng.choice([P.REGEX_WORD, P.REGEX_WORD.upper(), "the " + P.REGEX_WORD + " please"])
+    t["exc_kind"] = rng.choice(P.EXC_KINDS)
     t["vin"] = [[i, gen_verdict(rng, ver, "in", k, w_in)] for i in sorted(set(cfg["in"]))]
     t["vout"] = [[i, gen_verdict(rng, ver, "out", k, w_out)] for i in sorted(set(cfg["out"]))]
     return t
@@ -99,6 +107,8 @@ def gen_cfg(rng, max_rails=3):
             c["front"] = rng.random() < 0.3
             if c["gen"] == "single":
                 c["dialog"] = True
+        elif not c["dialog"]:
+            c["usaid"] = rng.choice(["something", "something", "plain", "regex", "regex"])
         if fits(ver, c["dialog"], len(c["in"]), len(c["out"])):
             return c
 
@@ -250,6 +260,8 @@ def reply_text(rep):
 def tags(case, obs):
     t = [f"ver:{case['ver']}", f"dialog:{int(bool(case['dialog']))}", f"exc:{int(bool(case['exc']))}", f"n_in:{len(eff_in(case))}", f"n_out:{len(eff_out(case))}", f"selfcheck:{int(bool(case.get('sc')))}",
          f"turns:{len(case['turns'])}", f"carry:{case.get('carry')}", f"gen:{case.get('gen', 'std') if case['ver'] == '1.0' else '2.x'}", f"front:{int(bool(case.get('front')))}"]
+    if case["ver"] == "2.x" and not case["dialog"]:
+        t.append("usaid:" + case.get("usaid", "something"))
     for tc, to in zip(case["turns"], obs["turns"]):
         for kind in ("in", "out"):
             for s in rail_calls(to, kind):
@@ -267,6 +279,8 @@ def tags(case, obs):
             t.append("reply:empty")
         else:
             t.append("reply:text")
+        if fault_reached(tc, to):
+            t.append("exc-kind:" + tc.get("exc_kind", "msg"))
         if tc.get("act_fault") and any(s[0] == "act" and s[1] == "dialog_act" for s in to["steps"]):
             t.append("dialog-action-fault")
         if tc.get("retr_fault") and any(s[0] == "act" and s[1] == "retrieve" for s in to["steps"]):
@@ -298,6 +312,8 @@ def shrink(case):
                 if v != "a":
                     nt = dict(t, **{key: [[r, ("a" if jj == j else vv)] for jj, (r, vv) in enumerate(t[key])]})
                     yield dict(case, turns=ts[:i] + [nt] + ts[i + 1:])
+        if t.get("exc_kind", "msg") != "msg":
+            yield dict(case, turns=ts[:i] + [dict(t, exc_kind="msg")] + ts[i + 1:])
         for key in ("act_fault", "retr_fault"):
             if t.get(key):
                 yield dict(case, turns=ts[:i] + [dict(t, **{key: False})] + ts[i + 1:])
